@@ -9,6 +9,7 @@ import (
 
 	"github.com/biogo/biogo/alphabet"
 	"github.com/biogo/biogo/feat"
+	"github.com/biogo/biogo/io/featio"
 	"github.com/biogo/biogo/io/featio/bed"
 	"github.com/biogo/biogo/io/featio/gff"
 	"github.com/biogo/biogo/seq"
@@ -37,7 +38,7 @@ func init() {
 		MinDistinct: func(t string) int { return 2000 },
 		Floors: func(string) map[string]int64 {
 			return map[string]int64{"bed_records_compared": 10000, "bed_narrower_widths": 3000, "gff_features_compared": 2000, "gff_regions_compared": 300, "gff_sequences_compared": 300,
-				"gff_coordinate_columns_checked": 2000, "write_calls_counted": 8000, "gff_negative_or_extreme_coords": 300}
+				"gff_coordinate_columns_checked": 2000, "write_calls_counted": 8000, "gff_negative_or_extreme_coords": 300, "scanner_passes": 3000}
 		},
 		Assumptions: []string{"text fields are non-empty, tab-free, trimmed, not starting with '#'; attribute tags match [A-Za-z_]+; region and inline sequence names are whitespace-free; NaN scores are not generated"},
 	})
@@ -133,6 +134,23 @@ func c02Case(r *obs.Run, i int) {
 				if m < n {
 					r.Count("bed_narrower_widths", 1)
 				}
+			}
+			// the same bytes through featio.Scanner
+			if br2, err := bed.NewReader(newSrc(rng, data), m); err == nil {
+				sc := featio.NewScanner(br2)
+				k := 0
+				for sc.Next() {
+					if k >= nrec || !reflect.DeepEqual(sc.Feat(), bedPrefix(recs[k], m)) {
+						fail("scanner", fmt.Sprintf("featio.Scanner bed%d record %d differs", m, k))
+						return
+					}
+					k++
+				}
+				if sc.Error() != nil || k != nrec {
+					fail("scanner", fmt.Sprintf("featio.Scanner stopped after %d of %d bed records, Error()=%v", k, nrec, sc.Error()))
+					return
+				}
+				r.Count("scanner_passes", 1)
 			}
 			r.Note("bed/"+fmt.Sprint(n, m)+string(data), m > 3)
 		}
@@ -334,6 +352,18 @@ func c02Case(r *obs.Run, i int) {
 	if f, err := gr.Read(); err != io.EOF {
 		fail("record-count", fmt.Sprintf("reader returned (%v,%v) after the last item instead of io.EOF", f, err))
 		return
+	}
+	{
+		sc := featio.NewScanner(gff.NewReader(newSrc(rng, data)))
+		k := 0
+		for sc.Next() {
+			k++
+		}
+		if sc.Error() != nil || k != len(items) {
+			fail("scanner", fmt.Sprintf("featio.Scanner over the gff file stopped after %d of %d items, Error()=%v", k, len(items), sc.Error()))
+			return
+		}
+		r.Count("scanner_passes", 1)
 	}
 	if header && gr.Version != gff.Version {
 		fail("record-differs", "header written but reader's Version not set")
